@@ -769,7 +769,7 @@ func runC08(r *h.Run) {
 	if c.TLS != "auto" && (r.Spec.P("reuse", "") == "1" || (r.Spec.P("fixed", "") != "1" && w.Range("reuse/on", 2) == 1)) && !noisy() {
 		hostAccepts := r.Spec.P("reusedir", "") == "h" || (r.Spec.P("reusedir", "") == "" && w.Range("reuse/dir", 2) == 0)
 		rid := uint32(1500)
-		rctx := fmt.Sprintf("broker=grpcmux id-reuse accept-side=%s", map[bool]string{true: "host", false: "plugin"}[hostAccepts])
+		rctx := fmt.Sprintf("broker=grpcmux%s id-reuse accept-side=%s", lateMark, map[bool]string{true: "host", false: "plugin"}[hostAccepts])
 		establish := func(id uint32, round string) bool {
 			var stop func()
 			if hostAccepts {
@@ -805,7 +805,20 @@ func runC08(r *h.Run) {
 			}
 			// close the listener again
 			if hostAccepts {
-				stop()
+				// (bounded: a multiplexed listener whose knock was acknowledged but
+				// whose stream never came - the dialler gave up in between - sits in
+				// session.Accept until the client is closed, and grpc's Stop waits
+				// for it. After injected stalls that is the late-peer history of the
+				// recorded finding; without them it would be a defect of its own.)
+				so := r.Do(fmt.Sprintf("StopOwnServer(%d)", id), 30*time.Second, func() (any, error) { stop(); return nil, nil })
+				if so.Hung {
+					if noisy() {
+						w.Probe("mux.stop-hung-after-stalled-dial")
+					} else {
+						r.Violate("hang", "op=StopOwnServer "+rctx+" step="+round, "stopping the server of a brokered listener never returned\n"+r.HostStacks("goplugin"))
+					}
+					return false
+				}
 			} else {
 				s.cmd.Do("stopown", fmt.Sprint(id))
 			}
